@@ -258,8 +258,20 @@ class CmsDriver:
         self.feats.add("join_then_argument_modified")
         self.verify("after the join argument was modified")
 
+    def _skip_this_verify(self, force=False):
+        """look-ups after EVERY step would refresh whatever the structure remembers from its last query before the next update can
+        trip over it: with case["verify_mask"] the comparison with the model runs only at some steps (always at the end)"""
+        vm = self.case.get("verify_mask", 0)
+        self.nv = getattr(self, "nv", -1) + 1
+        if vm and not force and not getattr(self, "_final", False) and not (vm >> (self.nv % 8)) & 1:
+            self.feats.add("steps_without_queries")
+            return True
+        return False
+
     def verify(self, what):
         ctx, o = self.ctx, self.obj
+        if self._skip_this_verify():
+            return
         b = self._o("bounds")
         if b or self._o("exact"):
             ea = o.elements_added
@@ -327,6 +339,8 @@ class CmsDriver:
             self.step(op)
             if self.cls == "hh" and prev_tables - set(self.obj.heavy_hitters) and op[0] != "clear":
                 self.feats.add("hh_replacement")
+        self._final = True
+        self.verify("at the end of the history")
         for f in self.feats:
             self.ctx.feat(f)
         self.ctx.feat("cls_" + self.cls)
@@ -371,6 +385,7 @@ def case_strategy(tier, classes=("cms",), allow_clear=False, max_ops=40, small=F
             ops.append(st.tuples(st.just("join"), st.lists(st.tuples(ki, st.integers(1, 5)), max_size=4)))
         c["ops"] = [list(o) for o in draw(st.lists(st.one_of(*ops), min_size=3, max_size=max_ops))]
         c["alt_mode"] = draw(st.sampled_from(["", "", "scratch", "shared"]))
+        c["verify_mask"] = draw(st.one_of(st.just(0), st.just(0), st.integers(1, 255)))
         return c
 
     return case()
